@@ -32,10 +32,10 @@ class ExprMixin:
             f = forall(list(self.bound), f)
         return f
 
-    def hazard(self, kind, safe, node=None, what=""):
+    def hazard(self, kind, safe, node=None, what="", state=None):
         if z3.is_true(safe):
             return
-        self.hz.append(Hazard(kind, self._wrap(safe), node, what))
+        self.hz.append(Hazard(kind, self._wrap(safe), node, what, state))
 
     def fact(self, st, f):
         st.assume(self._wrap(f))
@@ -77,6 +77,8 @@ class ExprMixin:
     def coerce(self, v, ty, node=None, what="value"):
         if v.ty == ty:
             return v
+        if v.ty.key == "EmptyList" and isinstance(ty, TList):
+            return self.empty_of(ty)
         if v.ty == TInt and ty == TReal:
             return Val(TReal, z3.ToReal(v.t))
         if isinstance(ty, TOpt):
@@ -463,7 +465,7 @@ class ExprMixin:
         vals = [self.as_value(self.eval(e, st), node) for e in node.elts]
         if not vals:
             if hint is None:
-                raise Unsupported("empty list display without a type hint", node)
+                return Val(TU("EmptyList"), None)  # typed by the slot it flows into
             return self.empty_of(hint)
         ety = hint.elem if hint is not None else vals[0].ty
         vals = [self.coerce(v, ety, node) for v in vals]
@@ -576,7 +578,10 @@ class ExprMixin:
         return Val(ty, R)
 
     def e_JoinedStr(self, node, st):
-        raise Unsupported("f-string", node)
+        h = self.fstring_handler
+        if h is None:
+            raise Unsupported("f-string", node)
+        return h(self, node, st)
 
     def e_Lambda(self, node, st):
         # a lambda is a value only where the sidecar knows what to do with it (coercion to a callable sort)
